@@ -210,7 +210,8 @@ def _detect(drv, seed, kf, v, note):
                 v.transitions += r.generated
                 note["library_variant"] = {"list_choice_repaired": True, "per_unote_arming": fix}
                 return True, fix
-            first = first or r
+            if first is None or (r.maxl or 0) > (first.maxl or 0):
+                first = r           # (the variant that explains the longest prefix is the one reported)
         return None
 
     def pinned():
@@ -261,11 +262,14 @@ def _judge(res, variant, kf, two_readers):
     r = None
     for f in order:
         full = f or not two_readers
-        r = _validate(tr, _tcfg(True, f, invs=ALL_INVS if full else SIB_INVS), tag)
-        if r.accepted:
-            out["tlc"], out["fix"] = r, f
+        r1 = _validate(tr, _tcfg(True, f, invs=ALL_INVS if full else SIB_INVS), tag)
+        if r is None or r1.accepted or (r1.maxl or 0) > (r.maxl or 0):
+            r = r1              # (the variant that explains the longest prefix is the one reported)
+        if r1.accepted:
+            out["tlc"], out["fix"] = r1, f
             break
-        if r.violated and r.violated != "StopWhenAccepted":
+        if r1.violated and r1.violated != "StopWhenAccepted":
+            r = r1
             break
     if not r.accepted:
         detail = _why(r)
